@@ -170,6 +170,9 @@ where
                     Token::AttributeOpen => in_attribute = true,
                     Token::DocComment(..) => (),
                     Token::RBracket => in_attribute = false,
+                    // The tokenizer yields `EOF` forever, an unterminated attribute must not be
+                    // scanned past the end of the input
+                    Token::EOF => return Ok(false),
                     _ if !in_attribute => return Ok(false),
                     _ => (),
                 },
